@@ -1,4 +1,4 @@
 From Coq Require Extraction ExtrOcamlBasic.
 From GV Require Import C14.Model C14.Schema_gen C14.Run.
 Extraction Language OCaml.
-Extraction "model.ml" run_case wf_case.
+Extraction "model.ml" run_case wf_case run_limited elem_sizes.
